@@ -2,14 +2,93 @@
 """Regenerates MANIFEST.json from the table below (kept next to ./check so both stay in step)."""
 import json, os, subprocess
 ROOT = os.path.dirname(os.path.abspath(__file__))
-HOOK_COMMITS = ["e7bc9c5", "f6269f5", "2435480"]
+HOOK_COMMITS = ["e7bc9c5", "f6269f5", "2435480", "75d319d"]
+SC = "Sequentially consistent interleavings at the granularity of hooked accesses only; plain/SIMD reads are atomic w.r.t. the scheduler; no physical block reuse inside a run; sampling, not proof."
 CLAIMED = {
+ "C01": dict(engine="seqsim", level="exploration", design="DESIGN.md §6 C01",
+   text="Seeded histories (20-400 operations: insert/remove/get/empty/clear, duplicates and absent removes, value lengths 0-5000) on db, mutex_db and olc_db x {uint64, byte-string keys} are executed "
+        "operation by operation next to a std::map model; every result is compared, earlier value views are re-read after every later call, and the allocation ledger + ASan poison flag a premature free. "
+        "mutex_db/olc_db histories are issued from 2-3 simulated threads with quiescent states, pause/resume and thread exit between calls, so deferred reclamation really frees nodes at varying points. "
+        "For plain db the simulator degenerates to a seeded model-based run (no schedule dimension). Histories passing through non-representable byte-string key sets are the known finding D1.",
+   note="Key sets come from seeded shapes (1-3 branching positions, alphabets straddling node-class boundaries, dense ranges, sparse keys); oracle = std::map. " + SC,
+   technique="deterministic simulation: seeded operation histories across simulated threads, checked against a map model + allocation ledger"),
+ "C02": dict(engine="seqsim", level="exploration", design="DESIGN.md §6 C02",
+   text="C01-style histories with scan, scan_from and scan_range (both directions, early halt after 1-6 visits) interleaved; bounds are stored keys, their neighbours, keys leaving the tree at every depth, 0 and max; "
+        "caller-side bound buffers are placed in both address orders; the visited (key, value) sequence must equal the model's range exactly and the visitor must not be called after returning true.",
+   note="Byte-string key sets are restricted to representable ones (D1 is owned by C01). " + SC,
+   technique="deterministic simulation: seeded histories with scans, exact comparison with the ordered-map model"),
+ "C03": dict(engine="olcsim", level="exploration", design="DESIGN.md §6 C03",
+   text="2-4 QSBR-registered simulated threads x 1-4 get/insert/remove on a real olc_db prefilled to a structural boundary (leaf split, prefix split, growth/shrink at 4/16/48, collapse with leaf or inner-node survivor, "
+        "root transitions); every lock-word and protected-field access is a scheduling point; histories stamped with the scheduler's step counter are checked per key with a Wing-Gong linearizability search; "
+        "a post-run single-threaded sweep must agree with an admissible final state. Schedules: sequential, preemption-bounded (1-3, stratified over measured lengths), PCT, random walk, round robin.",
+   note="32 schedules per program; <= 4 threads, <= 16 concurrent operations, trees <= ~60 keys. " + SC,
+   technique="deterministic simulation: seeded scheduler over parked OS threads + per-key linearizability checking"),
+ "C04": dict(engine="olcsim", level="exploration", design="DESIGN.md §6 C04",
+   text="C03/C09 workloads where readers and scanners keep the value views they received and re-read them (each re-read a scheduling point) until their own next quiescent state; quiescent states after every "
+        "operation, every second one or only at thread exit; thread exit with pending requests happens inside the run. Oracles: every hooked access must hit a live ledger block, ASan poison on logically freed "
+        "blocks for un-hooked accesses, held views unchanged, reachable nodes touched by the sweep, ledger empty and nothing freed twice after drain and destruction.",
+   note="Logical free (no address reuse within a run). " + SC,
+   technique="deterministic simulation: seeded scheduler + allocation ledger with logical free/poison + held-view monitor"),
+ "C05": dict(engine="qsbrsim", level="exploration", design="DESIGN.md §6 C05",
+   text="Abstract QSBR programs (publish, take reference to a linked object, touch, drop, unlink+on_next_epoch_deallocate, quiescent, pause+resume, spawn qsbr_thread, exit) of 2-4 threads over the real QSBR; "
+        "every atomic step inside register/unregister/quiescent/orphan hand-over is a scheduling point and weak-CAS sites fail spuriously (buggify). A monitor checks at every free that each other thread "
+        "registered at the time of the request has since been inside quiescent/pause/exit, and that nobody holds a reference taken while the object was linked.",
+   note="<= 4 threads + 1 spawned child, <= 8 objects; probes show the 'impossible to get deterministically' branches of qsbr.cpp are taken. " + SC,
+   technique="deterministic simulation: seeded scheduler + buggify + QSBR monitor over call/return stamps"),
+ "C06": dict(engine="qsbrsim", level="exploration", design="DESIGN.md §6 C06",
+   text="C05 programs followed by a drain: three rounds in which every still-registered thread quiesces once (order and interleaving inside a round chosen by the scheduler), threads that pause or exit holding "
+        "requests at any point of an epoch change, then the 'all but one unregistered, two quiescent states' tail. Ledger: each retired block freed exactly once, freed by the end of the third round, nothing "
+        "pending after the tail; the registered-thread count is compared with the program's count whenever no start/exit/pause/resume is in flight.",
+   note="The three-round bound is checked on rounds that start after every request; " + SC,
+   technique="deterministic simulation: seeded scheduler + allocation ledger + thread-count model"),
  "C07": dict(engine="locksim", level="exploration", design="DESIGN.md §6 C07",
    text="Seeded search over interleavings of 2-3 threads on one real unodb::optimistic_lock guarding three protected fields; every lock-word and protected-field access is a scheduling point; "
         "recorded call/return stamps are checked against a lock monitor (writer exclusion, validated sections never provably overlap a write-locked period and see only completed writers' "
-        "values, upgrades not after another writer, obsolete final). Sampling over schedules (sequential, preemption-bounded, PCT, random walk, round-robin), not exhaustive.",
-   note="Sequentially consistent interleavings only; assumes the hook placement in optimistic_lock.hpp covers every access of the lock word and of in_critical_section fields.",
+        "values, upgrades not after another writer, obsolete final).",
+   note="Assumes the hook placement in optimistic_lock.hpp covers every access of the lock word and of in_critical_section fields. " + SC,
    technique="deterministic simulation: seeded scheduler over parked OS threads + lock monitor over the recorded history"),
+ "C08": dict(engine="seqsim", level="fault_enumeration", design="DESIGN.md §6 C08",
+   text="For every insert and remove of generated histories (three index classes, OLC under one registered thread, both key kinds), and for qsbr_resume, qsbr_thread start and on_next_epoch_deallocate at the "
+        "QSBR API: fail allocation k for k = 1, 2, ... until the operation completes, so every allocation point is failed exactly once without hard-coded counts; plus over-long key/value length errors. "
+        "After each failure: exception type, all entries readable with equal bytes, full scan, every statistics getter, live-allocation set and QSBR getters unchanged; the un-faulted repeat returns the model's "
+        "result; hooks stay active so a lock left held is reported at the next operation.",
+   note="Allocation failure delivered through the --wrap=posix_memalign seam and the harness' operator new; histories <= 120 operations.",
+   technique="deterministic simulation: exhaustive allocation-failure enumeration per operation through link-time seams"),
+ "C09": dict(engine="olcsim", level="exploration", design="DESIGN.md §6 C09",
+   text="One or two scanner threads (scan, scan_from, scan_range, both directions, optional halt) against one to three writers restructuring nodes on the scanner's path in two- and three-level trees; "
+        "the scan oracle uses call/return stamps of writers and per-visit stamps: strictly monotone keys inside the interval, each value one its key could have held between the scan's call and the visit, "
+        "every key provably present throughout delivered exactly once, no value provably removed before the scan began.",
+   note="All judgements conservative (an interval overlaps unless the stamps prove otherwise). " + SC,
+   technique="deterministic simulation: seeded scheduler + interval-based concurrent-scan oracle"),
+ "C10": dict(engine="seqsim", level="exploration", design="DESIGN.md §6 C10",
+   text="After every operation of C01-style histories (failed/duplicate operations and clear included) on the three classes: leaf count = entries, inner nodes per class = those of the reference path-compressed "
+        "radix tree of the key set, reported memory = bytes of live ledger blocks and block count = node count, zero when empty, growth/shrink counters monotone and moving by exactly one iff the reference tree "
+        "gains, loses or re-classes an inner node; ledger empty after destruction. Also after olcsim concurrent phases once all threads have quiesced and drained.",
+   note="Representable key sets only; statistics-enabled builds. " + SC,
+   technique="deterministic simulation: seeded histories checked against a reference radix-tree shape model and the allocation ledger"),
+ "C13": dict(engine="mutexsim", level="exploration", design="DESIGN.md §6 C13",
+   text="2-4 plain simulated threads x 2-5 operations (get/insert/remove/empty/clear/scans) on one mutex_db over small key pools; scheduling points at every wrapped mutex call, every in_fake_critical_section access and "
+        "allocation notification inside the tree, and while a get handle is held. The mutex is simulated as a blocking resource. Whole-history linearizability against a map with multi-key operations; owns_lock() == hit "
+        "and the simulator's owner table after every call; held values re-read while writers queue; ledger flags a leaf freed under a held handle; deadlock detection.",
+   note="uint64 keys; <= 20 operations per history; the quantifier's free-running threads are replaced by schedules the simulator decides. " + SC,
+   technique="deterministic simulation: seeded scheduler with simulated mutex blocking + whole-map linearizability checking"),
+ "C14": dict(engine="olcsim", level="exploration", design="DESIGN.md §6 C14",
+   text="Every C03/C09-style run continues under a fair tail until all operations return (step budget; lone spin = deadlock report), with allocation failures injected into inserts; afterwards a single-threaded sweep "
+        "with hooks active (get of every key, full scans both ways, insert+remove probes next to keys) must terminate and agree with an admissible final state.",
+   note="No oracle mentions time or a particular winner; budget 400k scheduler steps per run. " + SC,
+   technique="deterministic simulation: seeded scheduler with deadlock/livelock detection + allocation-failure injection + post-run sweep"),
+ "C16": dict(engine="seqsim", level="exploration", design="DESIGN.md §6 C16",
+   text="The same seeds of C01/C02-style histories (uint64 keys, byte-string keys <= 8 bytes; olc_db histories with scans followed by removals issued across simulated threads) run in {AVX2, SSE4.1} x {stats on, off} x "
+        "{assertions on, NDEBUG} x {PAUSE, EMPTY} builds (quick: a pairwise-covering subset of 6; thorough: all 16); per-seed hashes of the result/scan trace must agree across all builds and the counter hashes across "
+        "the statistics builds; every build is also model-checked by itself and assertion failures are reported with the configuration named.",
+   note="Matrix builds are g++ -O2 without sanitizers; memory-use counters are excluded from the cross-build hash (node sizes legitimately differ).",
+   technique="deterministic simulation: identical seeded executions replayed across build configurations, differential + model oracle"),
+ "C17": dict(engine="ptrsim", level="exploration", design="DESIGN.md §6 C17",
+   text="An interpreter over qsbr_ptr<std::byte> and qsbr_ptr_span slots (construct, default, copy, move, copy-/move-assign, ++ -- += -= + -, difference, comparisons, dereference/index/write, destroy) on 2-3 QSBR threads, "
+        "each step mirrored on a raw-pointer shadow; probes call quiescent()/qsbr_pause() under setjmp with the harness' __assert_fail jumping back: in assertion builds a probe must be rejected iff the probing thread's "
+        "shadow multiset of live non-null wrappers is non-empty; any other assertion is a violation. NDEBUG builds check the equivalence half.",
+   note="The schedule dimension is thin (per-thread registries; switches at operation boundaries).",
+   technique="deterministic simulation: seeded interpreter with raw-pointer shadow model and assertion-intercepting liveness probes"),
 }
 NOT_YET = {}
 NA = {
